@@ -175,6 +175,23 @@ def s_gate_shared_cond(rng, nval):
     return _mk(b.prog, "gating_shared_condition", rng, nval, edges={nm: list(range(-5, 10))})
 
 
+def s_gate_then_op_same_scalar(rng, nval):
+    """`((s CMP k) : r) OP s` and `((r CMP s) : r) OP s`: the scalar drives the gate / filter AND is the operand of the
+    each-operation that consumes the result (its fan-out chain runs between the two combinators)."""
+    b = B(rng)
+    b.literal("r")
+    nm, _t = b.scalar(None)
+    thr = rng.randint(-3, 8)
+    if rng.random() < 0.6:
+        inner = ["bg", ["c", rng.choice(CMP_OPS), ["v", nm], ["n", thr]], ["v", "r"]]
+    else:
+        inner = ["bf", rng.choice(CMP_OPS), ["v", "r"], ["v", nm], "copy"]
+    b.prog.append(["bun", "x", ["bb", rng.choice(["+", "*", "-", "/"]), inner, ["v", nm]]])
+    if rng.random() < 0.5:
+        b.prog.append(["sig", "other", ["p", ["b", "+", ["v", nm], ["n", 1]], b.types.fresh()]])
+    return _mk(b.prog, "gate_then_op_same_scalar", rng, nval, edges={nm: list(range(-5, 10))})
+
+
 def s_anyall(rng, nval):
     b = B(rng)
     b.literal("r", k_const=rng.randint(0, 2), k_in=rng.randint(1, 3), k_comp=0)
@@ -341,7 +358,7 @@ def s_compose(rng, nval):
     return _mk(b.prog, "composed_expressions", rng, nval, small=True, edges=edges)
 
 
-STRATA = [(s_literal, 3), (s_arith, 6), (s_filter, 5), (s_gate, 3), (s_gate_shared_cond, 3), (s_anyall, 3), (s_select, 2), (s_chain, 4),
+STRATA = [(s_literal, 3), (s_arith, 6), (s_filter, 5), (s_gate, 3), (s_gate_shared_cond, 3), (s_gate_then_op_same_scalar, 3), (s_anyall, 3), (s_select, 2), (s_chain, 4),
           (s_shared_source, 1), (s_compose, 8), (s_nested_member_scalar, 3)]
 
 
